@@ -900,7 +900,10 @@ def judge_compose(runs, vals, bag, known):
         if why:
             bag.spec_fail.append(dict(base, what="; ".join(why), stderr=o["err"].decode("utf-8", "replace")[:300]))
         if len(bag.samples) < 3 and past_parsing(lib) and rn["sink"] == "file":
-            bag.samples.append(dict(argv=argv, exit=o["rc"], model=vals[rn["model_ix"]]))
+            bag.samples.append(dict(argv=argv, exit=o["rc"], stdout_bytes=len(o["out"]),
+                                    file_sha256=sha(o["file"])[:16] if o.get("file") is not None else None,
+                                    model=dict(m, stdout=m["stdout"], file=list(m["file"]) if m["file"] else None),
+                                    library_stages=base["library_stages"]))
     # -t: the text assembles to a valid component with the same interface; its re-print is the text itself
     uniq = {}
     for rn, text, binary in text_checks:
